@@ -89,7 +89,17 @@ Tie / search (DESIGN.md §4.2, §5 C06):
    (g) nested array literals (gen_array_family): rectangular 2-4 level literals (extents 0..3) and their one-row
        mutants (row empty / shorter / longer / deeper / shallower / scalar / non-empty among empty rows at first,
        middle, last position of every depth) x 9 sinks x element kind.
-       (e)-(g): distributions in coverage.alias_family / call_syntax_family / array_literal_family.
+   (h) same-named types of different modules (gen_module_family): enum E, enum ER with a record item, record R and
+       functions over them declared locally and in corpus/C06/lib/modp.nev, modq.nev; match item / record guards
+       (with / without else, one foreign guard), if-let guards, arguments (also piped, lambda), assignments, returns,
+       array elements / element type, ?: branches, function values x expected owner x given owner: different owners
+       must be rejected, the same owner must compile.  (Comparisons / arithmetic convert enumerators to int: not in
+       the matrix.)
+   (i) operators on arrays (gen_arrayop_family): + - * / % over every ordered pair of (scalar, rank 1-3 array) x (int,
+       long, float, double, bool, string, char) with an array operand, and unary minus; accepted exactly: a +- b of one
+       numeric kind and rank, numeric scalar * numeric array, rank-2 * rank-2 of one numeric kind, - numeric array.
+       (e)-(i): distributions in coverage.alias_family / call_syntax_family / array_literal_family / module_type_family /
+       array_operator_family.
   Corpus: /verif/corpus/C06/*.nev (first line `# expect: accept` | `# expect: reject line=<n>
   key=<key>`), and the negative samples of <repo>/sample (`*.nev.err` with an `error:` line): each
   must be rejected at the first recorded line.
@@ -1678,6 +1688,191 @@ def gen_array_family(rng, quick):
     return cases
 
 
+# ---- (h) same-named types of different modules ---------------------------------------------------
+# corpus/C06/lib/modp.nev and modq.nev declare the same names (enum E, enum ER with a record item, record R,
+# functions mk / mker / mkr / take / takeer / taker); the program declares them a third time locally.  A
+# value of owner X's type used where owner Y's type of the same name is expected is an offence.  (Comparisons and
+# arithmetic are not in the matrix: enumerators convert to int there, also between differently named enums.)
+MT_OWNERS = [("local", ""), ("modp", "modp."), ("modq", "modq.")]
+MT_LOCAL = """use modp
+use modq
+enum E { A, B, C }
+enum ER { A { x : int; }, B }
+record R { x : int; }
+func mk() -> E { E::A }
+func mker() -> ER { ER::A(1) }
+func mkr() -> R { R(1) }
+func take(e : E) -> int { 1 }
+func takeer(e : ER) -> int { 2 }
+func taker(r : R) -> int { r.x }"""
+MT_MSG = (r"enums are different|^function call type mismatch|^cannot assign different types|^incorrect return type|"
+          r"^array is not well formed|^incorrect types in array|^types on conditional expression do not match|"
+          r"^cannot compare|^cannot ne |^record create type mismatch|^enum record create type mismatch|"
+          r"^cannot find enum|^match guard|^cannot exec arithmetic")
+# (construct, kind of type, declarations, statement lines, return type of the host or None) over X. (expected
+# owner prefix) and Y. (given owner prefix)
+MT_CONSTRUCTS = [
+    ("match-item-guards-with-else", "enum", ["let e = X.E::A;"], ["let w = match e { Y.E::A -> 1; Y.E::B -> 2; else -> 3; };"]),
+    ("match-item-guards-exhaustive", "enum", ["let e = X.E::A;"], ["let w = match e { Y.E::A -> 1; Y.E::B -> 2; Y.E::C -> 3; };"]),
+    ("match-one-foreign-item-guard", "enum", ["let e = X.E::A;"], ["let w = match e { X.E::A -> 1; Y.E::B -> 2; X.E::C -> 3; };"]),
+    ("match-one-foreign-item-guard-with-else", "enum", ["let e = X.E::A;"], ["let w = match e { X.E::A -> 1; Y.E::B -> 2; else -> 3; };"]),
+    ("match-record-guards-with-else", "enum-record", ["let er = X.ER::A(1);"], ["let w = match er { Y.ER::A(x) -> x; else -> 3; };"]),
+    ("match-record-guards-exhaustive", "enum-record", ["let er = X.ER::A(1);"], ["let w = match er { Y.ER::A(x) -> x; Y.ER::B -> 2; };"]),
+    ("match-foreign-record-guard-own-item-guard", "enum-record", ["let er = X.ER::A(1);"], ["let w = match er { Y.ER::A(x) -> x; X.ER::B -> 2; };"]),
+    ("match-call-result", "enum", [], ["let w = match X.mk() { Y.E::A -> 1; else -> 3; };"]),
+    ("iflet-item-guard", "enum", ["let e = X.E::A;"], ["let w = if let (Y.E::A = e) { 1 } else { 0 };"]),
+    ("iflet-record-guard", "enum-record", ["let er = X.ER::A(1);"], ["let w = if let (Y.ER::A(x) = er) { x } else { 0 };"]),
+    ("argument-enumerator", "enum", [], ["let w = X.take(Y.E::A);"]),
+    ("argument-call-result", "enum", [], ["let w = X.take(Y.mk());"]),
+    ("argument-enum-record", "enum-record", [], ["let w = X.takeer(Y.ER::A(1));"]),
+    ("argument-record", "record", [], ["let w = X.taker(Y.R(1));"]),
+    ("argument-record-call-result", "record", [], ["let w = X.taker(Y.mkr());"]),
+    ("piped-argument", "enum", [], ["let w = Y.E::A |> X.take();"]),
+    ("lambda-argument", "record", [], ["let w = (let func (r : X.R) -> int { r.x })(Y.R(1));"]),
+    ("assignment-enum", "enum", ["var v = X.E::A;"], ["v = Y.E::B;"]),
+    ("assignment-enum-record", "enum-record", ["var v = X.ER::A(1);"], ["v = Y.ER::B;"]),
+    ("assignment-record", "record", ["var v = X.R(1);"], ["v = Y.R(2);"]),
+    ("assignment-call-result", "record", ["var v = X.R(0);"], ["v = Y.mkr();"]),
+    ("return-enum", "enum", [], ["Y.E::A"], "X.E"),
+    ("return-record", "record", [], ["Y.R(1)"], "X.R"),
+    ("return-enum-record-call-result", "enum-record", [], ["Y.mker()"], "X.ER"),
+    ("array-elements", "enum", [], ["let w = [ X.E::A, Y.E::A ] : X.E;"]),
+    ("array-element-type", "record", [], ["let w = [ Y.R(1) ] : X.R;"]),
+    ("conditional-branches", "enum", [], ["let w = (1 < 2) ? X.E::A : Y.E::B;"]),
+    ("conditional-branches-record", "record", [], ["let w = (1 < 2) ? X.R(1) : Y.R(2);"]),
+    ("function-value", "enum", [], ["let w = (let func (f(X.E) -> int) -> int { 0 })(Y.take);"]),
+    ("function-value-result", "record", [], ["let w = (let func (f() -> X.R) -> int { 0 })(Y.mkr);"]),
+]
+
+
+def gen_module_family(rng, quick):
+    cases = []
+    n = [0]
+    for con in MT_CONSTRUCTS:
+        cname, kind, decls, stmts = con[:4]
+        ret = con[4] if len(con) > 4 else None
+        for xo, xp in MT_OWNERS:
+            for yo, yp in MT_OWNERS:
+                def sub(t):
+                    return t.replace("X.", xp).replace("Y.", yp)
+                body = [(sub(d), False) for d in decls] + [(sub(st), True) for st in stmts]
+                host = AL_HOSTS[n[0] % 3]
+                src, l0, l1 = host_program(MT_LOCAL, host, "", sub(ret) if ret else "int", [], body, tail=None if ret else "0")
+                if ret:
+                    l0 -= 2           # `incorrect return type` is reported at the function's own line
+                n[0] += 1
+                bad = xo != yo
+                c = tcase("mt%d" % n[0], "mt", "mutant" if bad else "base", "ModuleType:" + cname,
+                          "%s|expected-%s|given-%s|%s" % (kind, xo, yo, host), "reject" if bad else "accept", src,
+                          line=l0, msg=MT_MSG, extra={"cell": (cname, "%s<-%s" % (xo, yo), kind), "construct": cname})
+                c["l1"] = l1
+                cases.append(c)
+    return cases
+
+
+# ---- (i) operators on arrays ----------------------------------------------------------------------------
+# Decision rule (front/typecheck.c expr_add_sub_check_type / expr_mul_check_type, measured on the unchanged tree):
+#   a + b, a - b   arrays of the SAME numeric element type (int, long, float, double) and the same rank
+#   s * a          numeric scalar times numeric array (any pair of kinds: the scalar is converted)
+#   a * b          matrix product: both of rank 2 and of the same numeric element type
+#   - a            numeric array
+#   anything else with an array operand (other element kinds, different kinds, different ranks, array (+) scalar,
+#   array * scalar, / and %) is `cannot exec arithmetic operation`
+AO_KINDS = [("int", "1"), ("long", "1L"), ("float", "1.0"), ("double", "1.0d"), ("bool", "true"), ("string", '"s"'), ("char", "'c'")]
+AO_NUM = {"int", "long", "float", "double"}
+AO_MSG = r"^cannot exec arithmetic|^cannot negate|^cannot exec mod|^cannot exec"
+
+
+def ao_lit(rank, lit):
+    return lit if rank == 0 else "[ " + ", ".join([ao_lit(rank - 1, lit)] * 2) + " ]"
+
+
+def ao_verdict(op, l, r):
+    (lr, lk), (rr, rk) = l, r
+    if op in ("+", "-"):
+        return lr == rr and lr > 0 and lk == rk and lk in AO_NUM
+    if op == "*":
+        if lr == 0 and rr > 0:
+            return lk in AO_NUM and rk in AO_NUM
+        return lr == 2 and rr == 2 and lk == rk and lk in AO_NUM
+    return False
+
+
+def ao_class(op, l, r):
+    (lr, lk), (rr, rk) = l, r
+    if op in ("/", "%"):
+        return "division-of-arrays"
+    if lr > 0 and rr > 0:
+        if lk not in AO_NUM or rk not in AO_NUM:
+            return "non-numeric-elements"
+        if lk != rk:
+            return "element-kinds-differ"
+        if lr != rr:
+            return "ranks-differ"
+        return "vector-or-cube-product"
+    if lr == 0:
+        return "scalar-op-array" if (lk in AO_NUM and rk in AO_NUM) else "non-numeric-scalar-or-elements"
+    return "array-op-scalar"
+
+
+def gen_arrayop_family(rng, quick):
+    decls = []
+    operands = []
+    for kind, lit in AO_KINDS:
+        for rank in (0, 1, 2, 3):
+            name = "%s%d" % (kind[0] + kind[1], rank)
+            decls.append("var %s = %s%s;" % (name, ao_lit(rank, lit), (" : " + kind) if rank else ""))
+            operands.append(((rank, kind), name))
+    cases = []
+    n = [0]
+    sinks = ["let", "discard", "operand", "index", "argument"]
+
+    def add(op, l, ln, r, rn):
+        ok = ao_verdict(op, l, r) if r is not None else (l[0] > 0 and l[1] in AO_NUM)
+        expr = "%s %s %s" % (ln, op, rn) if r is not None else "-%s" % ln
+        sink = sinks[n[0] % len(sinks)]
+        rank = (r[0] if (r is not None and l[0] == 0) else l[0])
+        if sink == "let":
+            st = "let w = %s;" % expr
+        elif sink == "discard":
+            st = "%s;" % expr
+        elif sink == "operand":
+            st = "let w = (%s) == (%s);" % (expr, expr) if False else "let w = { %s };" % expr
+        elif sink == "index":
+            st = "let w = (%s)[%s];" % (expr, ", ".join(["0"] * max(rank, 1)))
+            if not ok and rank == 0:
+                st = "let w = %s;" % expr
+        else:
+            st = "let w = idf({ %s; 1 });" % expr
+        used = sorted({ln, rn} - {None})
+        body = [(d, False) for d in decls if d.split()[1] in used] + [(st, True)]
+        src, l0, l1 = host_program("func idf(a : int) -> int { a }", AL_HOSTS[n[0] % 3], "", "int", [], body)
+        n[0] += 1
+        cls = ao_class(op, l, r) if r is not None else ("negate-non-numeric" if not ok else "-")
+        c = tcase("ao%d" % n[0], "ao", "base" if ok else "mutant", "ArrayOperator:%s:%s" % (op if r is not None else "neg", cls),
+                  "%s%s|%s|%s" % ("%s:%d" % (l[1], l[0]), (" %s:%d" % (r[1], r[0])) if r is not None else "", sink, AL_HOSTS[(n[0] - 1) % 3]),
+                  "accept" if ok else "reject", src, line=l0, msg=AO_MSG,
+                  extra={"cell": (op if r is not None else "neg", cls, "%s:%d|%s" % (l[1], l[0], ("%s:%d" % (r[1], r[0])) if r is not None else "-")),
+                         "opclass": (op if r is not None else "neg", cls)})
+        c["l1"] = l1
+        cases.append(c)
+
+    for op in ("+", "-", "*", "/", "%"):
+        for l, ln in operands:
+            for r, rn in operands:
+                if l[0] == 0 and r[0] == 0:
+                    continue
+                if op in ("/", "%") and (l[1] not in AO_NUM or r[1] not in AO_NUM) and rng.random() < 0.7:
+                    continue
+                if op == "%" and ("float" in (l[1], r[1]) or "double" in (l[1], r[1])) and rng.random() < 0.5:
+                    continue
+                add(op, l, ln, r, rn)
+    for l, ln in operands:
+        if l[0] > 0:
+            add("neg", l, ln, None, None)
+    return cases
+
+
 def run_round3_families(ctx, drv, quick):
     rng = random.Random((ctx.seed << 12) ^ 0xC063)
     fams = [("alias", gen_alias_family(rng, quick),
@@ -1685,7 +1880,11 @@ def run_round3_families(ctx, drv, quick):
             ("call_syntax", gen_call_family(rng, False),       # cheap: the complete grids in both tiers
              lambda c: "accepted:Args:%s:%s" % (c["offence"], c["syntax"])),
             ("array_literal", gen_array_family(rng, False),
-             lambda c: "accepted:ArrayLiteral:%s" % c["mutation"])]
+             lambda c: "accepted:ArrayLiteral:%s" % c["mutation"]),
+            ("module_type", gen_module_family(rng, False),
+             lambda c: "accepted:ModuleType:%s" % c["construct"]),
+            ("array_operator", gen_arrayop_family(rng, False),
+             lambda c: "accepted:ArrayOperator:%s:%s" % c["opclass"])]
     allcases = [c for _n, cs, _k in fams for c in cs]
     res = compile_all(ctx, drv, allcases, "r3")
     for name, cases, keyfn in fams:
@@ -1723,6 +1922,16 @@ def run_round3_families(ctx, drv, quick):
         "literal or let-bound) x callee (named function, function value, function parameter, lambda, record field, array "
         "element, call result, module function, record / enum-record constructor, module constructors) x 5 signatures; the "
         "fitting list must compile, every other must be rejected with a type-mismatch diagnostic on its line")
+    ctx.coverage["module_type_family"]["rule"] = (
+        "enum E / enum ER with a record item / record R and functions over them declared three times under the same names (locally, "
+        "module modp, module modq); %d constructs (match item / record guards with and without else, one foreign guard, if-let guards, "
+        "arguments incl. piped and lambda, assignments, returns, array elements and element type, ?: branches, comparisons, function "
+        "values) x expected owner x given owner: owners differ -> must be rejected on the statement's lines, same owner -> must compile"
+        % len(MT_CONSTRUCTS))
+    ctx.coverage["array_operator_family"]["rule"] = (
+        "+ - * / % over every ordered pair of operands (scalar, rank 1, 2, 3 arrays of int, long, float, double, bool, string, char) "
+        "with at least one array, and unary minus; accepted exactly: a+-b same numeric kind and rank, numeric scalar * numeric array, "
+        "rank-2 * rank-2 of one numeric kind, -numeric array; everything else must be `cannot exec arithmetic ...` on its line")
     ctx.coverage["array_literal_family"]["rule"] = (
         "rectangular nested literals of 2-4 levels (every extent 0..3, all-empty rows included: accepted) and their one-row "
         "mutants (row empty / shorter / longer / deeper / shallower / replaced by a scalar / non-empty among empty, first / middle / "
